@@ -218,6 +218,10 @@ macro_rules! bodies {
                     assert!(*pnl == *uncapped, "C11: pnl differs from the uncapped pnl although the trader cap cannot bind");
                     // closed tokens: all on a full close, else ceil (long) / floor (short) of tokens*delta/size
                     if mode == 2 {
+                    } else if mode == 4 {
+                        let again = pos.size_delta_in_tokens(&delta);
+                        assert!(again.as_ref().map_or(false, |c| *c == *closed), "C11: reported closed tokens differ from size_delta_in_tokens");
+                        core::mem::forget(again);
                     } else if u(delta) == size {
                         assert!(u(*closed) == tokens, "C11: a full close does not close every token");
                     } else if pos.is_long {
@@ -569,8 +573,8 @@ fn probe_c11_sdt_u8() {
     w8n::size_delta_in_tokens();
 }
 #[kani::proof]
-fn probe_c11_unc_m1() {
-    w8::pnl_uncapped_exact_mode(1);
+fn probe_c11_unc_m4() {
+    w8::pnl_uncapped_exact_mode(4);
 }
 #[kani::proof]
 fn probe_c11_unc_m2() {
